@@ -146,7 +146,8 @@ class Check:
                     replayed = None
                     self.notes.append(f"replay of counter-model for {what} failed to run: {exn!r}")
                 if replayed:
-                    failures = [dict(site=what, input=ob["model"], observed=replayed, source="solver counter-model")]
+                    failures = [dict(site=what, input=ob["model"], observed=replayed, source="solver counter-model",
+                                     rerun=dict(kind="contract", module=contract_mod, contract=name, model=ob["model"]))]
             if not failures and fb is not None:
                 try:
                     failures = fb() or []
